@@ -24,14 +24,14 @@ row-major order; for a lazy-expression argument x_k is the scalar operator appli
                          is outside the typing), sqrt is an uninterpreted function of the radicand.  Decided: the radicand is the
                          specified polynomial and sqrt is applied once to it.  NOT decided: that sqrts() is correctly rounded and
                          the n*eps error bound of the floating sum.
-  product(x)             n <= 10 elements: multilinear in its n elements -> TAGS/BASIS pair of vf.multilinear_cases (a proof for all
-                         values; floats in the ring reinterpretation); n > 10 (the only way to reach the 16-lane AVX-512 kernels)
+  product(x)             n <= 9 elements: multilinear in its n elements -> TAGS/BASIS pair of vf.multilinear_cases (a proof for all
+                         values; floats in the ring reinterpretation); n > 9 (the only way to reach the 16-lane AVX-512 kernels)
                          and lazy-expression arguments: B01 bounded, inputs in {0,1} (families product-*-b01, never counted as proved)
   determinant(A), n<=4   closed-form strategies: multilinear in the n rows -> TAGS/BASIS pair, r == Leibniz sum over permutations
                          (int, float, double; n = 2,3,4); det(A - B) in the bounded 0/1 domain (family det-b01)
 Large ATOMS queries are split into a "+typing" and a "+unit" query (see atoms_cases) that together give the same conclusion.
 Not decided / left out: LU- and QR-based determinants (n > 4) and isorthogonal (need real floating products / divisions),
-product() of more than 10 elements outside the 0/1 domain, norm of integer tensors, every rounding bound of the property
+product() of more than 9 elements outside the 0/1 domain, norm of integer tensors, every rounding bound of the property
 ("machine arithmetic treated as mathematical").
 """
 from units.common import *
@@ -44,8 +44,8 @@ LEVEL_NOTE = ('per instantiation (function, type, size/shape, argument kind, ISA
               'isequal and issymmetric on ints, trace/sum of int32 for small n.  UF (float subtraction uninterpreted): isequal/issymmetric on '
               'floats.  ATOMS (equality of polynomials, floats in the ring reinterpretation; queries with more than 10 table entries are '
               'split into a typing query over all 0/1 tables and a value query over the unit tables): sum, trace, inner, the radicand of norm '
-              '(sqrt opaque).  TAGS/BASIS pairs (multilinear code): product of <= 10 elements, closed-form determinant n <= 4.  B01 bounded, never '
-              'counted as proved: product of > 10 elements, product/det of lazy expressions.  Not decided: rounding bounds, LU/QR determinants, '
+              '(sqrt opaque).  TAGS/BASIS pairs (multilinear code): product of <= 9 elements, closed-form determinant n <= 4.  B01 bounded, never '
+              'counted as proved: product of > 9 elements, product/det of lazy expressions.  Not decided: rounding bounds, LU/QR determinants, '
               'isorthogonal, correct rounding of sqrt.')
 
 FLT_MAX = {32: 3.4028234663852886e+38, 64: 1.7976931348623157e+308}
@@ -348,13 +348,13 @@ def fold_mul(es):
     return r
 
 def product_case(ty, shape, cfg, kind):
-    """n == 1: exact (SYM).  2 <= n <= 10 with a tensor argument: multilinear in the n elements -> TAGS/BASIS pair (a proof for
-    all values; floats in the ring reinterpretation).  Otherwise (more than 10 elements -- needed to reach the 16-lane AVX-512
+    """n == 1: exact (SYM).  2 <= n <= 9 with a tensor argument: multilinear in the n elements -> TAGS/BASIS pair (a proof for
+    all values; floats in the ring reinterpretation).  Otherwise (more than 9 elements -- needed to reach the 16-lane AVX-512
     kernels -- or a lazy-expression argument): bounded B01, inputs in {0,1}."""
     n = prod(shape)
     c = Buf('c', ty, 1, 'out')
     tensor_arg = kind in ('own', 'map', 'method', 'method-map')
-    multilinear = tensor_arg and 2 <= n <= 10
+    multilinear = tensor_arg and 2 <= n <= 9      # (vf's negative control for TAGS uses tag bit 9: at most 9 operands here)
     if kind in ('method', 'method-map'):
         bufs, decl, x, el = argument(ty, shape, 'own' if kind == 'method' else 'map', atoms=('TR', 1, 0) if multilinear else None)
         call = '%s.product()' % x
@@ -500,10 +500,10 @@ def cases(tier, seed):
                     if main_std:
                         for shape in [(2, 2), (3, 3)]:
                             out += norm_case(ty, shape, cfg, 'own')
-                # ---- product: multilinear pair for n <= 10, bounded 0/1 beyond ----
+                # ---- product: multilinear pair for n <= 9, bounded 0/1 beyond ----
                 if mult_ok and main_std:
-                    szs = {1, 2, 3, V - 1, V, V + 1, 2 * V + 1, 10} if not full else set(range(1, 11)) | {V - 1, V, V + 1, 2 * V + 1}
-                    szs = sorted(x for x in szs if 1 <= x <= 10) + ([V + 1] if V + 1 > 10 else []) + ([2 * V + 3] if full else [])
+                    szs = {1, 2, 3, V - 1, V, V + 1, 2 * V + 1} if not full else set(range(1, 10)) | {V - 1, V, V + 1, 2 * V + 1}
+                    szs = sorted(x for x in szs if 1 <= x <= 9) + ([V + 1] if V + 1 > 9 else []) + ([2 * V + 3] if full else [])
                     for i, n in enumerate(szs):
                         out += product_case(ty, (n,), cfg, ['own', 'map', 'method', 'method-map'][i % 4])
                     out += product_case(ty, (2, 3), cfg, 'own')
@@ -554,4 +554,4 @@ def evidence_extra(tier):
                     'argument_kinds': ['owning tensor', 'TensorMap (unaligned)', 'lazy A + B', 'lazy A - B', 'member function', 'rank 2-4 shapes'],
                     'bounded_families': ['product-int-b01', 'product-flt-b01', 'det-b01'],
                     'not_decided': ['LU/QR determinants', 'isorthogonal', 'rounding bounds', 'correct rounding of sqrt in norm',
-                                    'product of more than 10 elements outside the 0/1 domain', 'norm of integer tensors']}}
+                                    'product of more than 9 elements outside the 0/1 domain', 'norm of integer tensors']}}
